@@ -501,11 +501,13 @@ def main():
             run.fail(report.Failure(r.ob.name, "post", f"{r.ob.name}: the template prints `{r.ob.meta['expr']}`, which is not the {r.ob.name.split('#')[1]} for model {r.model}",
                                     {"model": r.model, "expr": r.ob.meta["expr"], "smt2": r.ob.smt2()}, False))
     # D
-    sobs = [o for o in PP.collect(run, {}, "any", ("ser",)) if o.kind in ("post", "frame")]
-    sres = smt.solve_all(sobs)
-    run.add_results(sres)
-    PP.report_failures(run, sres, "any")
-    shutil.rmtree(PP._STATE.get("workdir", "/nonexistent"), ignore_errors=True)
+    # (the little-endian variant selects the memmove fast paths, whose copy lengths decide whether an exactly-sized buffer suffices)
+    for label, opts in (("any", {}), ("little", {"target_endianness": "little"})):
+        sobs = [o for o in PP.collect(run, opts, label, ("ser",)) if o.kind in ("post", "frame", "safety", "pre")]
+        sres = smt.solve_all(sobs)
+        run.add_results(sres)
+        PP.report_failures(run, sres, label)
+        shutil.rmtree(PP._STATE.get("workdir", "/nonexistent"), ignore_errors=True)
     run.trust("clang 14 constant evaluator and typed AST (x86-64, FLT_EVAL_METHOD 0)", "pydsdl model attributes (extent, bit_length_set, fixed_port_id, constants) as the DSDL definition",
               "z3 / cvc5", "E-PY, E-J and E-C semantics (vk/epy.py, vk/ej.py, vk/ec.py)", "bundled Jinja2 parser for the template ASTs")
     run.assume("per program: constants are compared on the corpus types (corpus/vkm, corpus/vk) for every exported name; the template obligations (E-J) hold for all types but cover only the integer metadata expressions",
